@@ -438,3 +438,81 @@ pub fn pick_key<KC: KeyGen>(rng: &mut Rng, keyspace: u64) -> Vec<u8> {
 
 #[allow(dead_code)]
 fn _assert_value_bounds<V: Value>() {}
+
+// ---- big keys (up to several pages): &[u8] and &str ------------------------------------------------
+// "keys and values of any size from empty to many pages": the ordinary pools stop at ~150 bytes. These
+// two share the stored types &[u8] / &str but draw lengths around 512, 1024, 4096 bytes and beyond, so
+// that at every configured page size some keys exceed a page (multi-page leaves, branch pages that
+// hold page-sized routing keys, separators that cannot be shortened because keys differ at the end).
+
+fn big_len(i: u64) -> usize {
+    const L: [usize; 14] = [0, 3, 90, 170, 250, 254, 255, 300, 505, 520, 1020, 1500, 4090, 4100];
+    if i % 97 == 96 {
+        return 9000 + (i % 7) as usize;
+    }
+    L[(i % 14) as usize] + ((i / 14) % 3) as usize
+}
+
+pub struct ColBytesBig;
+impl Col for ColBytesBig {
+    type T = &'static [u8];
+    const FIXED: Option<usize> = None;
+    fn real<'a>(m: &'a [u8]) -> &'a [u8] {
+        m
+    }
+    fn model(v: &[u8]) -> Vec<u8> {
+        v.to_vec()
+    }
+}
+impl KeyGen for ColBytesBig {
+    const NAME: &'static str = "&[u8] (big)";
+    fn key(i: u64) -> Vec<u8> {
+        let n = big_len(i);
+        let id = i.to_be_bytes();
+        let mut v = vec![[0x00u8, 0x61, 0xff][(i % 3) as usize]; n];
+        if (i / 3) % 2 == 0 {
+            // distinguishing bytes at the end: long shared prefixes
+            let k = n.min(8);
+            v[n - k..].copy_from_slice(&id[8 - k..]);
+            if n < 8 {
+                v.extend_from_slice(&id);
+            }
+        } else {
+            // distinguishing bytes at the start: separators shorten to almost nothing
+            let mut w = id.to_vec();
+            w.extend_from_slice(&v);
+            v = w;
+        }
+        v
+    }
+}
+
+pub struct ColStrBig;
+impl Col for ColStrBig {
+    type T = &'static str;
+    const FIXED: Option<usize> = None;
+    fn real<'a>(m: &'a [u8]) -> &'a str {
+        std::str::from_utf8(m).expect("model str")
+    }
+    fn model(v: &str) -> Vec<u8> {
+        v.as_bytes().to_vec()
+    }
+}
+impl KeyGen for ColStrBig {
+    const NAME: &'static str = "&str (big)";
+    fn key(i: u64) -> Vec<u8> {
+        let n = big_len(i);
+        let filler = ["a", "é", "\u{800}", "\u{10000}"][(i % 4) as usize];
+        let mut s = String::new();
+        if (i / 4) % 2 == 1 {
+            s.push_str(&format!("{i:020}"));
+        }
+        while s.len() + filler.len() <= n {
+            s.push_str(filler);
+        }
+        if (i / 4) % 2 == 0 {
+            s.push_str(&format!("{i:020}"));
+        }
+        s.into_bytes()
+    }
+}
